@@ -2537,6 +2537,25 @@ def m_shared_remove_parent(rng, spec, feats):
     return 'shared_remove_parent_base'
 
 
+def m_reparent_overload_away(rng, spec, feats):
+    """re-parent a type that OWNS an overload of an inherited pointer so that no remaining base defines the pointer
+    (the type keeps it as a pointer of its own); bases are replaced by a fresh pointer-less type or dropped"""
+    types = _index(spec, 'types')
+    c = []
+    for q, t in types.items():
+        if t['bases'] and any(p.get('overloaded') for _, p in _own_ptrs(t)):
+            c.append(q)
+    if not c:
+        return None
+    q = rng.choice(c)
+    t = types[q]
+    if rng.random() < 0.7:
+        t['bases'] = [_plain_type(rng, spec, t['mod'])]
+        return 'reparent_overload_away:new_base'
+    t['bases'] = []
+    return 'reparent_overload_away:no_base'
+
+
 SHARED_MUTATIONS = ('shared_drop_from_one_parent', 'shared_alter_in_one_parent', 'shared_add_to_second_parent',
                     'shared_remove_parent_base')
 
@@ -3270,6 +3289,7 @@ _MUT_TABLE = (
     # weight 0: drawn only when requested through `kinds=` (keeps the default random stream of other packages unchanged)
     ('rebase_multi', m_rebase_multi, 0, False),
     ('drop_adjacent_bases', m_drop_adjacent_bases, 0, False),
+    ('reparent_overload_away', m_reparent_overload_away, 0, False),
     ('shared_drop_from_one_parent', m_shared_drop_one, 0, False),
     ('shared_alter_in_one_parent', m_shared_alter_one, 0, False),
     ('shared_add_to_second_parent', m_shared_add_second, 0, False),
